@@ -186,10 +186,12 @@ class Own:
             elif k == "iadd_list":
                 new_obj = rv.m.Amplifier()
                 pat = rv.Pattern(tracks=1, lines=1)
-                p += [new_obj, pat]
-                if p.patterns[-1] is not pat or pat.project is not p:
-                    L["viol"].append(C.viol("iadd-pattern", {"op": k}, {}))
-                before_pats = before_pats + [pat]
+                pat2 = rv.Pattern(tracks=1, lines=1)       # a DIFFERENT pattern whose attributes are all equal to pat's
+                p += [new_obj, pat, pat2]
+                if len(p.patterns) < 2 or p.patterns[-2] is not pat or p.patterns[-1] is not pat2 \
+                        or pat.project is not p or pat2.project is not p:
+                    L["viol"].append(C.viol("iadd-pattern", {"op": k}, {"patterns_added": len(p.patterns) - len(before_pats)}))
+                before_pats = before_pats + [pat, pat2]
             elif k == "iadd_list_dup":
                 # the same (new) module named twice in one list, another new module in between
                 new_obj = rv.m.Amplifier()
@@ -352,6 +354,19 @@ class Own:
                 nt.mod = m
                 if nt.module != m.index + 1 or nt.mod is not m:
                     vs.append(C.viol("note-mod-setter", {"inv": "note.mod"}, {"index": m.index, "module": nt.module}))
+            # a module that no project owns cannot be referenced, whatever index it happens to carry
+            import rv.api as rv
+            from rv.errors import ModuleOwnershipError
+
+            for label, stray in (("plain", rv.m.Amplifier()), ("with-index", rv.m.Amplifier(index=1))):
+                nt.module = keep
+                try:
+                    nt.mod = stray
+                    vs.append(C.viol("note-mod-setter-accepts-unowned-module", {"inv": "note.mod", "module": label}, {"module_number": nt.module}))
+                except ModuleOwnershipError:
+                    pass
+                except Exception as e:
+                    vs.append(C.viol("note-mod-setter-wrong-error", {"inv": "note.mod", "module": label, "exc": type(e).__name__}, {}))
             nt.module = keep
         return vs
 
@@ -391,6 +406,7 @@ class Own:
             place("Amplifier")
         elif k == "iadd_list":
             place("Amplifier")
+            m["pats"].append("Pattern")
             m["pats"].append("Pattern")
         elif k == "iadd_list_dup":
             place("Amplifier")
